@@ -13,48 +13,53 @@ Definition is_not_delim (b : byte) : bool :=
   in_range 97 122 b || in_range 65 90 b || is_digit b.
 
 (* parseNumber: number of bytes of the number at the head of [input], or None.
-   (With the F2 repair: a digit is required after the exponent marker and sign.) *)
+   (With the F2 repair: a digit is required after the exponent marker and sign.)
+   The three stages return (bytes consumed, rest). *)
+Definition pn_int (s : list byte) : option (nat * list byte) :=
+  match s with
+  | [] => None
+  | b0 :: r0 =>
+    if is b0 c_0 then Some (1%nat, r0)
+    else if is_digit19 b0 then let '(d, t) := span_digits r0 in Some (S (length d), t)
+    else None
+  end.
+Definition pn_frac (s : list byte) : nat * list byte :=
+  match s with
+  | b1 :: b2 :: r => if is b1 c_dot && is_digit b2
+                     then let '(d, t) := span_digits r in (S (S (length d)), t)
+                     else (0%nat, s)
+  | _ => (0%nat, s)
+  end.
+Definition pn_exp (s : list byte) : option (nat * list byte) :=
+  match s with
+  | b1 :: b2 :: r =>
+    if is b1 c_e || is b1 c_E then
+      let '(nsign, s2) := if is b2 c_plus || is b2 c_minus then (1%nat, r) else (0%nat, b2 :: r) in
+      match s2 with
+      | [] => None
+      | b3 :: _ =>
+        if is_digit b3 then let '(d, t) := span_digits s2 in Some (S (nsign + length d), t)
+        else None
+      end
+    else Some (0%nat, s)
+  | _ => Some (0%nat, s)
+  end.
 Definition parse_number (input : list byte) : option nat :=
   match input with
   | [] => None
-  | _ =>
-    let '(neg, s) := match input with
-                     | b :: r => if is b c_minus then (1%nat, r) else (0%nat, input)
-                     | [] => (0%nat, input) end in
-    match s with
-    | [] => None
-    | b0 :: r0 =>
-      let ip := if is b0 c_0 then Some (1%nat, r0)
-                else if is_digit19 b0 then let '(d, t) := span_digits r0 in Some (S (length d), t)
-                else None in
-      match ip with
+  | b :: r =>
+    let '(neg, s) := if is b c_minus then (1%nat, r) else (0%nat, input) in
+    match pn_int s with
+    | None => None
+    | Some (ni, s) =>
+      let '(nf, s) := pn_frac s in
+      match pn_exp s with
       | None => None
-      | Some (ni, s) =>
-        let '(nf, s) := match s with
-                        | b1 :: b2 :: r => if is b1 c_dot && is_digit b2
-                                           then let '(d, t) := span_digits r in (S (S (length d)), t)
-                                           else (0%nat, s)
-                        | _ => (0%nat, s) end in
-        let ex := match s with
-                  | b1 :: b2 :: r =>
-                    if is b1 c_e || is b1 c_E then
-                      let '(nsign, s2) := if is b2 c_plus || is b2 c_minus then (1%nat, r) else (0%nat, b2 :: r) in
-                      match s2 with
-                      | [] => None
-                      | b3 :: _ =>
-                        if is_digit b3 then let '(d, t) := span_digits s2 in Some (S (nsign + length d), t)
-                        else None
-                      end
-                    else Some (0%nat, s)
-                  | _ => Some (0%nat, s) end in
-        match ex with
-        | None => None
-        | Some (ne, s) =>
-          let n := (neg + ni + nf + ne)%nat in
-          match s with
-          | b :: _ => if is_not_delim b then None else Some n
-          | [] => Some n
-          end
+      | Some (ne, s) =>
+        let n := (neg + ni + nf + ne)%nat in
+        match s with
+        | b :: _ => if is_not_delim b then None else Some n
+        | [] => Some n
         end
       end
     end
@@ -73,43 +78,47 @@ Fixpoint trim_right_zeros (s : list byte) : list byte :=
   end.
 
 (* parseNumberParts (no digit check after the exponent sign: it is only applied to
-   the raw bytes of a Number token) *)
+   the raw bytes of a Number token).  Stages return (part, rest). *)
+Definition pp_int (s : list byte) : option (list byte * list byte) :=
+  match s with
+  | [] => None
+  | b0 :: r0 =>
+    if is b0 c_0 then Some ([], r0)
+    else if is_digit19 b0 then let '(d, t) := span_digits r0 in Some (b0 :: d, t)
+    else None
+  end.
+Definition pp_frac (s : list byte) : list byte * list byte :=
+  match s with
+  | b1 :: b2 :: r => if is b1 c_dot && is_digit b2
+                     then let '(d, t) := span_digits r in (b2 :: d, t)
+                     else ([], s)
+  | _ => ([], s)
+  end.
+Definition pp_exp (s : list byte) : option (list byte) :=
+  match s with
+  | b1 :: b2 :: r =>
+    if is b1 c_e || is b1 c_E then
+      if is b2 c_plus || is b2 c_minus then
+        match r with
+        | [] => None
+        | _ => Some (b2 :: fst (span_digits r))
+        end
+      else Some (fst (span_digits (b2 :: r)))
+    else Some []
+  | _ => Some []
+  end.
 Definition parse_number_parts (input : list byte) : option parts :=
   match input with
   | [] => None
-  | _ =>
-    let '(neg, s) := match input with
-                     | b :: r => if is b c_minus then (true, r) else (false, input)
-                     | [] => (false, input) end in
-    match s with
-    | [] => None
-    | b0 :: r0 =>
-      let ip := if is b0 c_0 then Some ([], r0)
-                else if is_digit19 b0 then let '(d, t) := span_digits r0 in Some (b0 :: d, t)
-                else None in
-      match ip with
+  | b :: r =>
+    let '(neg, s) := if is b c_minus then (true, r) else (false, input) in
+    match pp_int s with
+    | None => None
+    | Some (intp, s) =>
+      let '(frac, s) := pp_frac s in
+      match pp_exp s with
       | None => None
-      | Some (intp, s) =>
-        let '(frac, s) := match s with
-                          | b1 :: b2 :: r => if is b1 c_dot && is_digit b2
-                                             then let '(d, t) := span_digits r in (b2 :: d, t)
-                                             else ([], s)
-                          | _ => ([], s) end in
-        let ex := match s with
-                  | b1 :: b2 :: r =>
-                    if is b1 c_e || is b1 c_E then
-                      if is b2 c_plus || is b2 c_minus then
-                        match r with
-                        | [] => None
-                        | _ => Some (b2 :: fst (span_digits r))
-                        end
-                      else Some (fst (span_digits (b2 :: r)))
-                    else Some []
-                  | _ => Some [] end in
-        match ex with
-        | None => None
-        | Some exp => Some {| p_neg := neg; p_intp := intp; p_frac := trim_right_zeros frac; p_exp := exp |}
-        end
+      | Some exp => Some {| p_neg := neg; p_intp := intp; p_frac := trim_right_zeros frac; p_exp := exp |}
       end
     end
   end.
